@@ -1570,9 +1570,17 @@ def run(ctx):
         (_part_gitadvert, [(ctx.scale(15, 200), ns, k) for k in range(ns)]),
     ]
     _run_parts(ctx, parts)
+    # coverage-guided campaigns over raw byte streams under arbitrary chunking, same oracle inside the target (E3)
+    from .. import fuzz
+
+    fuzz.run_campaigns(ctx, "vf.fuzzt.c19", [("decode_stream", ctx.scale(6000, 500000), ctx.scale(8, 16))])
 
 
 def replay(ctx, check, case):
+    if check.startswith("fuzz"):
+        from .. import fuzz
+
+        return fuzz.replay(ctx, case, check)
     if check == "roundtrip":
         exec_roundtrip(ctx, case)
     elif check == "compositions":
